@@ -253,6 +253,15 @@ def search(ctx):
             for r in [f"g_a:Texture2D:-:-:0:0:s:{sp}", f"g_a:RayDesc:-:-:0:0:e:{sp}"] + \
                      ([f"g_a:struct:-:-:0:0:e:{sp}", f"g_a:Texture2D:1:-:0:0:e:gr+ri3+{sp}", f"g_a:Texture2D:1:-:0:0:e:gv+vi2+{sp}"] if sp == "Ta" else []):
                 out.append("\t".join(["C05.meta", tgt, "name=P0", "0", r + ";g_b:Texture2D:-:-:0:0:e", "", "cs_0:Compute:1:::8.4.1", "P0:-:0"]))
+        # declarations with several declarators: shared attributes / type, per-declarator dimensions and register annotations
+        for head, tail in [("g_a:Texture2D:-:-:0:0:e", "g_aj:Texture2D:-:2:0:0:e:j"), ("g_a:Texture2D:1:-:0:1:e:gr", "g_aj:Texture2D:-:2:0:1:e:ri5+j"),
+                           ("g_a:Texture2D:1:2:0:1:e", "g_aj:Texture2D:1:3:0:1:e:j"), ("g_a:Texture2D:-:-:0:0:e:Td3", "g_aj:Texture2D:-:-:0:0:e:Td3+j"),
+                           ("g_a:SamplerState:-:-:1:0:e:sp5", "g_aj:SamplerState:-:-:0:0:e:j"), ("g_a:BufferAddress:-:-:0:0:e", "g_aj:BufferAddress:-:2:0:0:e:j"),
+                           ("g_a:StructuredBuffer:2:-:0:0:e:gv+vi2", "g_aj:StructuredBuffer:2:2:0:0:e:gv+vi2+j"), ("g_a:Texture2D:-:-:0:0:s", "g_aj:Texture2D:-:-:0:0:s:j"),
+                           ("g_a:ConstantBuffer:-:-:0:0:e:TNap", "g_aj:ConstantBuffer:-:-:0:0:e:TNap+j")]:
+            for uses in ["0,1", "1", ""]:
+                for mode in ["name=P0", "nopipeline"]:
+                    out.append("\t".join(["C05.meta", tgt, mode, "0", f"{head};{tail};g_b:Texture2D:-:-:0:0:e", "", f"cs_0:Compute:{uses}:::8.4.1", "P0:-:0"]))
         # declaration shapes the allocator leaves alone
         for r in ["g_a:Texture2D:-:2x3:0:0:e", "g_a:struct:-:-:0:0:e", "g_a:Texture2D:-:u:0:0:e", "g_a:Texture2D:-:-:0:0:s",
                   "g_a:Texture2D:-:-:0:0:e:ns", "float16_t:Texture2D:-:-:0:0:e;float16_t_0:cbuffer:-:-:0:0:e",
